@@ -87,6 +87,7 @@ type WatcherRec struct {
 	ErrClosed   int
 	Snaps       []Snapshot
 	ctl         chan string
+	cdone       chan struct{}
 	consumer    *ssim.Task
 	ClosedRet   int // step at which the first Close call returned (0 = never)
 	cmode       string
@@ -248,7 +249,7 @@ func (x *Exec) api(task string, op Op, phase string) *APICall {
 		if op.Rec {
 			rp = strings.TrimSuffix(path, "/...")
 		}
-		c.InoBefore, c.DirBefore, c.ResErrBefore = resolve(rp, op.NoFol)
+		c.InoBefore, c.DirBefore, c.ResErrBefore = resolve(cleanPath(rp), op.NoFol)
 	}
 	var err error
 	c.Inv = step()
@@ -288,7 +289,7 @@ func (x *Exec) api(task string, op Op, phase string) *APICall {
 		if op.Rec {
 			rp = strings.TrimSuffix(path, "/...")
 		}
-		c.InoAfter, _, _ = resolve(rp, op.NoFol)
+		c.InoAfter, _, _ = resolve(cleanPath(rp), op.NoFol)
 	}
 	if wr.Inst != nil {
 		for _, sc := range wr.Inst.Calls[nCalls:] {
@@ -492,6 +493,7 @@ func (x *Exec) startConsumer(wr *WatcherRec) {
 		return
 	}
 	wr.ctl = make(chan string)
+	wr.cdone = make(chan struct{})
 	wr.cmode = "both"
 	if wr.Idx < len(x.sc.Cfg.Consumers) {
 		cc := x.sc.Cfg.Consumers[wr.Idx]
@@ -500,7 +502,10 @@ func (x *Exec) startConsumer(wr *WatcherRec) {
 		}
 		wr.cstop = cc.StopN
 	}
-	wr.consumer = ssim.Go(fmt.Sprintf("consumer%d", wr.Idx), "consumer", func() { x.consumer(wr) })
+	wr.consumer = ssim.Go(fmt.Sprintf("consumer%d", wr.Idx), "consumer", func() {
+		defer ssim.Close(wr.cdone)
+		x.consumer(wr)
+	})
 }
 
 type flagWaiter struct{ x *Exec }
@@ -517,10 +522,9 @@ func (x *Exec) doOp(task string, op Op, phase string) {
 		x.api(task, op, phase)
 	case OpQuiesce:
 		ssim.Quiesce()
-		x.snapshot("quiesce")
 	case OpConsumer:
-		if op.W < len(x.W) && x.W[op.W].consumer != nil && x.W[op.W].EvClosed == 0 {
-			ssim.Send(x.W[op.W].ctl, op.P)
+		if op.W < len(x.W) && x.W[op.W].consumer != nil {
+			x.tell(x.W[op.W], op.P)
 		}
 	default:
 		x.world(task, op)
@@ -541,7 +545,6 @@ func (x *Exec) mainTask() {
 				x.doOp(ts.Name, op, "body")
 				if sc.Cfg.Lagfree && op.K != OpQuiesce {
 					ssim.Quiesce()
-					x.snapshot("lagfree")
 				}
 			}
 			x.nDone++
@@ -559,7 +562,7 @@ func (x *Exec) mainTask() {
 		x.snapshot("terminal")
 	}
 	for _, wr := range x.W {
-		if wr.consumer != nil && (wr.EvClosed == 0 || wr.ErrClosed == 0) {
+		if wr.consumer != nil {
 			x.drainMode(wr)
 		}
 	}
@@ -587,12 +590,22 @@ func (x *Exec) mainTask() {
 	}
 }
 
+// tell sends a mode change to a consumer unless it has already exited.
+func (x *Exec) tell(wr *WatcherRec, mode string) {
+	sl, i := ssim.Select(false, ssim.Sd(wr.ctl), ssim.R(wr.cdone))
+	switch i {
+	case 0:
+		wr.ctl <- mode
+		sl.Done()
+	case 1:
+		<-wr.cdone
+		sl.Done()
+	}
+}
+
 // drainMode switches a consumer to reading both channels.
 func (x *Exec) drainMode(wr *WatcherRec) {
-	if wr.EvClosed != 0 && wr.ErrClosed != 0 {
-		return
-	}
-	ssim.Send(wr.ctl, "both")
+	x.tell(wr, "both")
 }
 
 func (x *Exec) snapshot(label string) {
